@@ -465,6 +465,8 @@ func rulesC01(e *Engine, r *Report) {
 	e.shareRule(r, "C06", "R06.3", "R01.13", "a delivered file is on record with its hash: the deliverer writes the receive-log record BEFORE it moves the validated file into the final directory (a crash after the move and before the record would leave a delivered file the receiver knows nothing about: the sender is told `not received` and the file is delivered a second time), and the move itself never parks the file under an intermediate name")
 	// ---------------------------------------------------------------- R01.14
 	e.shareRule(r, "C06", "R06.14", "R01.14", "what is delivered after a restart is what its log record says: Recover enters a parked (.wait) file as validated under the companion's name, hash and size only when the companion can only be that file's (no newer version in progress) or the parked file's MD5 equals the companion's hash")
+	// ---------------------------------------------------------------- R01.15
+	e.shareRule(r, "C05", "R05.14", "R01.15", "what was validated is what stays delivered: no write into a staged file is made outside the file's lock, where it could go on - through its handle - after the file was validated and moved to the final directory")
 }
 
 func shorten(s string) string {
